@@ -39,6 +39,9 @@ def plan(tier, seed):
     return [{"mode": "pure", "hashseed": h, "corpus": "small", "maxlen": 5, "pairlen": 4, "random_tables": 400} for h in range(8)]
 
 
+UNIQ = [0]
+
+
 def make_table(names):
     from xdeps import Table
     n = len(names)
@@ -146,6 +149,27 @@ def run_table(names, alphabet, counters, digests, violations, known, fp, pairs=T
             digests.add(digest([names, sel_text(sel)]))
         if exp[0] == "v" and ok:
             single.append((sel, exp[1]))
+    # ---- other tables in the same process, built with OTHER regex flags, use the same selector text first:
+    # the default table must still match case-insensitively (fresh pattern text per table, so that no
+    # process-wide memo of an earlier default table can hide a leak)
+    if n and len({x.lower() for x in names}) < len(set(names)) or (n and counters.get("tables", 0) % 7 == 0):
+        from xdeps import Table
+        import re as _re
+        UNIQ[0] += 1
+        letters = sorted({x[0] for x in names})
+        for pat in ("(?:%s).*|zz%d" % ("|".join(letters).lower(), UNIQ[0]), "%s|zq%d::0" % (names[0].lower(), UNIQ[0]),
+                    "%s|zq%d::-1" % (names[-1].upper(), UNIQ[0])):
+            other = Table({"name": np.array(names, dtype=object), "x": np.arange(n, dtype=float)}, regex_flags=0)
+            try:
+                other.rows.indices[pat]
+            except Exception:
+                pass
+            exp = oracle(names, cols, pat)
+            if exp[0] == "v" and any(i < 0 or i >= n for i in exp[1]):
+                continue
+            obs = observe(t, pat)
+            counters["selectors_after_foreign_flags_table"] = counters.get("selectors_after_foreign_flags_table", 0) + 1
+            compare("%r after a regex_flags=0 table used the same text" % pat, names, exp, obs, counters, violations, known, [(names, pat)])
     if not pairs:
         return
     for (s1, p1), (s2, _) in itertools.product(single, single):
